@@ -178,6 +178,10 @@ def run_case(case):
         d, g = random_graph(rng, nmax=case.get("nmax", 11), large=case.get("large", 0.0))
         if g.number_of_nodes() > 16:
             res.count("large_sparse_graphs")
+        elif rng.random() < 0.2:
+            from ..graphs import odd_numeric_labels
+            lk, g = odd_numeric_labels(rng, g, res)
+            d += "+labels:" + lk
     edges = [tuple(e) for e in g.edges()]
     maxc = [frozenset(c) for c in nx.find_cliques(g)]
     omega = max(len(c) for c in maxc)
